@@ -138,6 +138,9 @@ def gen(tier, rng):
     k = 4 if tier == "quick" else 5
     for t in C.token_strings(ALPHABET, k):
         yield {"kind": "pair", "t": t}
+    # whitespace that is not BibTeX's (NBSP, thin space, VT, FF, LS): part of a word, never stripped or split at
+    for t in C.token_strings(["Aa", "bb", " and ", " ", ",", "\u00a0", "\u2009", "\x0b", "\x0c", "\u2028"], 4 if tier == "quick" else 5):
+        yield {"kind": "pair", "t": t}
     for _ in range(60000 if tier == "quick" else 500000):
         yield {"kind": "pair", "t": _persons(rng)}
     for t in C.token_strings(ALPHABET, 3):
@@ -288,8 +291,13 @@ def _stack(case):
             return enc(out + [[Sym("write-raised"), Sym(type(e).__name__)]])
         return enc(out)
     skeleton = B.enc_block(b1)
-    text = bibtexparser.write_string(lib1, prepend_middleware=[MergeNameParts(allow_inplace_modification=False),
-                                                               MergeCoAuthors(allow_inplace_modification=False)])
+    # the same list object is handed to write_string twice (a module-level constant in user code): the call must
+    # neither change it nor behave differently the second time
+    pre = [MergeNameParts(allow_inplace_modification=False), MergeCoAuthors(allow_inplace_modification=False)]
+    bibtexparser.write_string(lib1, prepend_middleware=pre)
+    if len(pre) != 2:
+        return enc(out + [[Sym("prepend-list-mutated"), len(pre)]])
+    text = bibtexparser.write_string(lib1, prepend_middleware=pre)
     lib2 = MergeCoAuthors(allow_inplace_modification=False).transform(
         MergeNameParts(allow_inplace_modification=False).transform(lib1))
     (b2,) = lib2.blocks
@@ -337,7 +345,10 @@ def _pipe(case):
         return enc(out + [_raise(e)])
     out.append([Sym("ok"), B.enc_blocks(lib2.blocks, prev=False)])
     try:
-        text = bibtexparser.write_string(lib1, prepend_middleware=[MergeNameParts(), MergeCoAuthors()], bibtex_format=fmt)
+        pre = [MergeNameParts(), MergeCoAuthors()]
+        text = bibtexparser.write_string(lib1, prepend_middleware=pre, bibtex_format=fmt)
+        if len(pre) != 2:
+            return enc(out + [[Sym("prepend-list-mutated"), len(pre)]])
     except Exception as e:  # noqa
         return enc(out + [_raise(e)])
     out.append([Sym("ok"), text])
@@ -544,7 +555,12 @@ def oracle(case):
         return None     # the field value the parser extracted is not the text we reasoned about (stripped etc.)
     import copy
     v1 = copy.deepcopy(v1)
-    text = bibtexparser.write_string(lib1, prepend_middleware=[MergeNameParts(), MergeCoAuthors()])
+    pre = [MergeNameParts(allow_inplace_modification=False), MergeCoAuthors(allow_inplace_modification=False)]
+    text0 = bibtexparser.write_string(lib1, prepend_middleware=pre)
+    text = bibtexparser.write_string(lib1, prepend_middleware=pre)        # the same list object again
+    if len(pre) != 2 or text != text0:
+        return "write_string called twice with the same prepend_middleware list: list now has %d items, texts %r / %r" % (
+            len(pre), text0, text)
     lib3 = bibtexparser.parse_string(text, append_middleware=[SeparateCoAuthors(), SplitNameParts()])
     if len(lib3.blocks) != 1 or not isinstance(lib3.blocks[0], M.Entry):
         return "the written document %r does not re-parse to one entry: %r" % (text, [type(b).__name__ for b in lib3.blocks])
